@@ -37,6 +37,19 @@ if not os.path.exists(WT):
 else:
     sh("git -C %s checkout -f --detach %s" % (WT, head))
     sh("git -C %s checkout -- ." % WT)
+# sdir == "seeded": re-confirm what is already recorded under /verif/seeded/<PID>_*/
+if sdir == "seeded":
+    stage = "/tmp/seed-restage-%s" % pid
+    shutil.rmtree(stage, ignore_errors=True)
+    os.makedirs(stage)
+    for d in sorted(glob.glob(os.path.join(ROOT, "seeded", pid + "_*"))):
+        n = os.path.basename(d).split("_", 1)[1]
+        shutil.copy(os.path.join(d, "patch.diff"), os.path.join(stage, "change%s.diff" % n))
+        if os.path.isdir(os.path.join(d, "demo")):
+            shutil.copytree(os.path.join(d, "demo"), os.path.join(stage, "demo%s" % n))
+        m = json.load(open(os.path.join(d, "meta.json")))
+        json.dump({"summary": m.get("summary"), "needs": m.get("needs"), "tests": m.get("agent_tests")}, open(os.path.join(stage, "meta%s.json" % n), "w"))
+    sdir = stage
 diffs = sorted(glob.glob(os.path.join(sdir, "change*.diff")))
 report = []
 for d in diffs:
